@@ -251,8 +251,54 @@ def r18(body):
     return _sub(r"\bString::from\(\s*(\w+)\s*\)", lambda m: "vx_string_from(%s)" % m.group(1), body)
 
 
+@rule("R20", "let X = E.map(|p| BODY).unwrap_or(D); -> let X = match E { Some(p) => BODY, None => D };   [std definition of Option::map + unwrap_or; Verus gives an un-annotated closure no postcondition]")
+def r20(body):
+    count = 0
+    for m in list(re.finditer(r"\blet\s+(\w+)\s*=\s*([^;=]+?)\.\s*map\(\s*\|\s*(\w+)\s*\|", body)):
+        i = body.find("map(", m.start()) + 3
+        # matching paren of `map(`
+        depth, j = 0, i
+        while j < len(body):
+            if body[j] in "([{":
+                depth += 1
+            elif body[j] in ")]}":
+                depth -= 1
+                if depth == 0:
+                    break
+            j += 1
+        tail = re.match(r"\s*\.\s*unwrap_or\(\s*([^()]+?)\s*\)\s*;", body[j + 1:])
+        if not tail:
+            continue
+        closure_body = body[m.end():j]
+        new = "let %s = match %s { Some(%s) => %s, None => %s };" % (m.group(1), " ".join(m.group(2).split()), m.group(3), closure_body.strip(), tail.group(1))
+        end = j + 1 + tail.end()
+        body = body[:m.start()] + _pad(body[m.start():end], new) + body[end:]
+        count += 1
+        break
+    return body, count
+
+
 # rules that are purely syntactic proof devices are applied only when a unit asks for them
 OPT_IN = {"R9", "R15", "R17"}
+
+
+@rule("R3b", "assert!(E, \"msg\") -> proved assertion on the executable operand   [strengthening: the runtime check must never fire]")
+def r3b(body):
+    count = 0
+    while True:
+        calls = [c for c in _macro_calls(body, "assert") if not body[max(0, c[0] - 6):c[0]].endswith("debug_")]
+        calls = [c for c in calls if re.match(r"assert\s*!", body[c[0]:c[0] + 10])]
+        if not calls:
+            break
+        s0, e, inner = calls[0]
+        args = _split_top_comma(inner)
+        new = "{ let vx_as: bool = %s; assert(vx_as); }" % " ".join(args[0].split())
+        m = re.match(r"\s*;", body[e:])
+        if m:
+            e += m.end()
+        body = body[:s0] + _pad(body[s0:e], new) + body[e:]
+        count += 1
+    return body, count
 
 
 def apply_rewrites(body, only=None, declared=()):
